@@ -2,8 +2,6 @@ package conf
 
 import (
 	"fmt"
-
-	"github.com/bluenviron/mediamtx/internal/conf/jsonwrapper"
 )
 
 // AlwaysAvailableTrack is an item of alwaysAvailableTracks.
@@ -14,14 +12,9 @@ type AlwaysAvailableTrack struct {
 	MULaw        bool                      `json:"muLaw"`
 }
 
-// UnmarshalJSON implements json.Unmarshaler.
-func (t *AlwaysAvailableTrack) UnmarshalJSON(b []byte) error {
-	type alias AlwaysAvailableTrack
-	err := jsonwrapper.Unmarshal(b, (*alias)(t))
-	if err != nil {
-		return err
-	}
-
+// validate is called by Path.validate, so that tracks are checked
+// regardless of whether they come from a file, the API or the environment.
+func (t *AlwaysAvailableTrack) validate() error {
 	switch t.Codec {
 	case CodecAV1, CodecVP9, CodecH265, CodecH264, CodecOpus:
 		if t.SampleRate != 0 {
